@@ -100,7 +100,7 @@ func (e *Engine) hbAdd(kind byte, loc interface{}, pos, desc string) int {
 	h.events = append(h.events, hbEvent{id: id, role: h.role, kind: kind, loc: loc, pos: pos, desc: desc})
 	if last, ok := h.last[h.role]; ok {
 		h.edges = append(h.edges, [2]int{last, id})
-	} else if p, ok := h.pending[h.role]; ok {
+	} else if p, ok := h.pending[h.role]; ok && p >= 0 {
 		h.edges = append(h.edges, [2]int{p, id})
 	}
 	h.last[h.role] = id
@@ -145,8 +145,13 @@ func (e *Engine) hbSetRole(name string) {
 	}
 	if _, known := h.last[name]; !known {
 		if _, p := h.pending[name]; !p {
+			// the role is declared (its goroutine started) now: it is ordered after the declaring
+			// role's latest event - or after nothing, if the declaring role has done nothing yet.
+			// Fixed at the FIRST mention, so later switches to the role add no order.
 			if last, ok := h.last[h.role]; ok {
-				h.pending[name] = last // started by (after) the current role's latest event
+				h.pending[name] = last
+			} else {
+				h.pending[name] = -1
 			}
 		}
 	}
@@ -205,6 +210,7 @@ func (e *Engine) hbCheck() {
 	e.h.Stubs["hb:events"] += len(h.events)
 	e.h.Stubs["hb:edges"] += len(h.edges)
 	e.h.Stubs["hb:conflicting-pairs"] += len(pairs)
+	e.tracef("hb-check: %d events, %d edges, %d conflicting pairs", len(h.events), len(h.edges), len(pairs))
 	if len(pairs) == 0 {
 		st.Trivial++
 		return
